@@ -32,6 +32,62 @@ FAT = db.FAT_OFFSET
 INTERNAL = "contract over any image / chain / length"
 
 
+class SlotView:
+    """directory slot i of image A with its (ghost) chain g: m -> granule and data length L -- the terms in which list_files'
+    pre-condition is written (used by fn/list_files and by the stability lemma of disk_bridge)"""
+
+    def __init__(self, A, i, g, L):
+        self.A, self.i, self.g, self.L = A, i, g, L
+
+    def ent(self, k):
+        from lemmas.disk_addfile import DIR
+        return sel(self.A, DIR + 32 * self.i + k)
+
+    def active(self):
+        return And(self.ent(0) != 0x00, self.ent(0) != 0xFF)
+
+    def loc(self, j):
+        m = sym.floordiv(j, GR) if isinstance(j, SymInt) else j // GR
+        return offset(self.g(m)) + (j % GR)
+
+    def strm(self, j):
+        return sel(self.A, self.loc(j))
+
+    def kind_pl(self):
+        return Ite(self.ent(11) == 2, 5, Ite(self.ent(12) == 0xFF, 0, 3))
+
+    def entry_bytes(self):
+        return And(*[And(self.ent(k) >= 0, self.ent(k) <= 255) for k in (0, 11, 12, 13, 14, 15)])
+
+    def valid(self):
+        """the part of the pre-condition that holds for an ACTIVE slot: first granule from the entry, flag byte, recorded length,
+        trailer of a machine-language stream"""
+        L = self.L
+        v = [self.g(0) == self.ent(13), self.g(0) >= 0, self.g(0) <= 67, L >= 0, L <= 65535]
+        for k in range(5):
+            v.append(And(self.strm(k) >= 0, self.strm(k) <= 255))
+        ml = And(self.strm(0) == 0x00, self.strm(1) * 256 + self.strm(2) == L,
+                 self.strm(5 + L) == 0xFF, self.strm(6 + L) == 0x00, self.strm(7 + L) == 0x00,
+                 self.strm(8 + L) >= 0, self.strm(8 + L) <= 255, self.strm(9 + L) >= 0, self.strm(9 + L) <= 255)
+        bas = And(self.strm(0) == 0xFF, self.strm(1) * 256 + self.strm(2) == L)
+        v.append(Implies(self.ent(11) == 2, ml))
+        v.append(Implies(And(self.ent(11) != 2, self.ent(12) != 0xFF), bas))
+        return Implies(self.active(), And(*v))
+
+
+def chain_wf(fat, g, m, s, j):
+    """instance j of calculate_file_length's pre-condition for a chain of m granules: links are granule numbers, the last entry
+    is $C0 + s   (fat(x): allocation-table entry of granule x)"""
+    return And(g(j) >= 0, g(j) <= 67,
+               Implies(And(j >= 0, j < m - 1), And(fat(g(j)) == g(j + 1), fat(g(j)) >= 0, fat(g(j)) <= 67)),
+               Implies(j == m - 1, fat(g(j)) == 0xC0 + s))
+
+
+def rd_link(fat, g, total, m):
+    """instance m of read_data's pre-condition: while the stream goes on, the table links granule m to granule m + 1"""
+    return Implies(total > GR * (m + 1), And(fat(g(m)) == g(m + 1), g(m + 1) >= 0, g(m + 1) <= 67))
+
+
 class DiskReader:
     name = "disk_reader"
     props = ("C07", "C13")
@@ -187,43 +243,31 @@ class DiskReader:
         CNT = z3.Array("count", z3.IntSort(), z3.IntSort())                                  # active entries before slot i
         st = {"files": {}}
 
-        def ent(i, k):
-            return sel(A0, DIR + 32 * i + k)
-
-        def active(i):
-            return And(ent(i, 0) != 0x00, ent(i, 0) != 0xFF)
-
         def g(i, m):
             return SymInt(z3.simplify(z3.Select(z3.Select(GA2, sym._z(i)), sym._z(m))))
 
+        def view(i):
+            return SlotView(A0, i, lambda m: g(i, m), sel(LEN, i))
+
+        def ent(i, k):
+            return view(i).ent(k)
+
+        def active(i):
+            return view(i).active()
+
         def loc(i, j):
-            m = sym.floordiv(j, GR) if isinstance(j, SymInt) else j // GR
-            return offset(g(i, m)) + (j % GR)
+            return view(i).loc(j)
 
         def strm(i, j):
-            return sel(A0, loc(i, j))
+            return view(i).strm(j)
 
         def kind_pl(i):
-            return Ite(ent(i, 11) == 2, 5, Ite(ent(i, 12) == 0xFF, 0, 3))
+            return view(i).kind_pl()
 
         def pre(i):
             """instance i of the pre-condition (valid image): bytes are bytes, first granule from the entry, flag byte, lengths"""
-            L = sel(LEN, i)
-            pl = kind_pl(i)
-            c = [sel(CNT, i + 1) == sel(CNT, i) + Ite(active(i), 1, 0), sel(CNT, 0) == 0]
-            for k in (0, 11, 12, 13, 14, 15):
-                c.append(And(ent(i, k) >= 0, ent(i, k) <= 255))
-            v = [g(i, 0) == ent(i, 13), g(i, 0) >= 0, g(i, 0) <= 67, L >= 0, L <= 65535]
-            for k in range(5):
-                v.append(And(strm(i, k) >= 0, strm(i, k) <= 255))
-            ml = And(strm(i, 0) == 0x00, strm(i, 1) * 256 + strm(i, 2) == L,
-                     strm(i, 5 + L) == 0xFF, strm(i, 6 + L) == 0x00, strm(i, 7 + L) == 0x00,
-                     strm(i, 8 + L) >= 0, strm(i, 8 + L) <= 255, strm(i, 9 + L) >= 0, strm(i, 9 + L) <= 255)
-            bas = And(strm(i, 0) == 0xFF, strm(i, 1) * 256 + strm(i, 2) == L)
-            v.append(Implies(ent(i, 11) == 2, ml))
-            v.append(Implies(And(ent(i, 11) != 2, ent(i, 12) != 0xFF), bas))
-            c.append(Implies(active(i), And(*v)))
-            return And(*c)
+            sv = view(i)
+            return And(sel(CNT, i + 1) == sel(CNT, i) + Ite(active(i), 1, 0), sel(CNT, 0) == 0, sv.entry_bytes(), sv.valid())
         v = Verifier(env, it)
 
         # ---- callee contracts
@@ -349,7 +393,7 @@ class DiskReader:
             return And(g(m) >= 0, g(m) <= 67)
 
         def link(m):
-            return Implies(total > GR * (m + 1), And(sel(A0, FAT + g(m)) == g(m + 1), inrange(m + 1)))
+            return rd_link(lambda x: sel(A0, FAT + x), g, total, m)
 
         def noshort(m):
             return (N - offset(g(m)) >= L) if (isinstance(m, int) and m == 0) else (N - offset(g(m)) >= total - GR * m)
@@ -457,10 +501,7 @@ class DiskReader:
             return sel(GA, j)
 
         def wf(j):
-            """instance j of the pre-condition: links are granule numbers, the last entry is $C0 + s"""
-            return And(g(j) >= 0, g(j) <= 67,
-                       Implies(And(j >= 0, j < m - 1), And(sel(FA, g(j)) == g(j + 1), sel(FA, g(j)) >= 0, sel(FA, g(j)) <= 67)),
-                       Implies(j == m - 1, sel(FA, g(j)) == 0xC0 + s))
+            return chain_wf(lambda x: sel(FA, x), g, m, s, j)
         st = {"j": 0}
         v = Verifier(env, F.it)
 
